@@ -7,15 +7,14 @@
 (* history variable hidden from TLC's fingerprint by VIEW) that the        *)
 (* replayer executes against the real library.                             *)
 (***************************************************************************)
-EXTENDS Wire, Json
+EXTENDS Wire, Queries, Json
 
 CONSTANTS Atoms,      \* opaque leaf values, e.g. {<<"v","a1">>, <<"v","a2">>}
           KVs,        \* known-value numbers
           NReg,       \* number of registers
           Keys,       \* symmetric key ids
-          MaxDepth,   \* bound on the number of calls
           MaxSize,    \* bound on elements per register
-          Enabled,    \* enabled action families
+          Phases,     \* Phases[i] = action families enabled for the i-th call; Len(Phases) bounds the depth
           MaxT,       \* bound on the size of target sets
           ShapeSet,   \* input universe for the "build" call
           CfgName
@@ -44,6 +43,7 @@ CallIds(e) ==
     [] e[1] = "leaf" -> IF e[2][1] \in {"salt", "sig", "sealed", "share"} THEN {e[2][2]} ELSE {}
     [] OTHER -> {}
 UsedIds == UNION {CallIds(reg[r]) : r \in Full}
+MaxDepth == Len(Phases)
 FreshId == CHOOSE i \in 1..(MaxDepth + 1) : i \notin UsedIds /\ \A j \in 1..(i - 1) : j \in UsedIds
 
 (* A call: result r is Ok(env) / Err(kind); on Ok the destination register
@@ -83,7 +83,15 @@ ReplaceAssertionA == \E dst \in Reg, src \in Full, ro \in Full, rn \in Full :
                   Call("replace_assertion", dst, <<src, ro, rn>>, ReplaceAssertion(reg[src], reg[ro], reg[rn]))
 ReplaceSubjectA == \E dst \in Reg, src \in Full, rs \in Full :
                   Call("replace_subject", dst, <<src, rs>>, Ok(ReplaceSubject(reg[src], reg[rs])))
-AssertionsFam == AddAssertionA \/ AddAssertionPOA \/ AddAssertionEnvA \/ RemoveAssertionA
+(* bulk add: a sequence of registers, repetition allowed (add_assertions,
+   add_assertion_envelopes, add_assertions_salted(.., false)) *)
+RECURSIVE AddSeq(_, _)
+AddSeq(e, as) == IF as = << >> THEN Ok(e)
+                 ELSE LET r == AddAssertionEnv(e, Head(as)) IN
+                      IF IsOk(r) THEN AddSeq(Val(r), Tail(as)) ELSE r
+AddAssertionsA == \E dst \in Reg, src \in Full, n \in 2..3 : \E rs \in [1..n -> Full] :
+                  Call("add_assertions", dst, <<src, rs>>, AddSeq(reg[src], [i \in 1..n |-> reg[rs[i]]]))
+AssertionsFam == AddAssertionsA \/ AddAssertionA \/ AddAssertionPOA \/ AddAssertionEnvA \/ RemoveAssertionA
                  \/ ReplaceAssertionA \/ ReplaceSubjectA
 
 (* ---- navigation: parts of an envelope into a register -------------------------*)
@@ -132,7 +140,38 @@ DecryptA == \E dst \in Reg, src \in Full, k \in Keys :
 EncodeDecodeA == \E dst \in Reg, src \in Full :
               Call("encode_decode", dst, <<src>>, Ok(reg[src]))
 
-Fam(f, A) == f \in Enabled /\ A
+(* ---- observations ------------------------------------------------------------------*)
+ObsStructure == \E src \in Full : Observe("obs_structure", <<src>>, StructureFacts(reg[src]))
+ObsWalk == \E src \in Full :
+              \/ Observe("obs_walk", <<src, FALSE>>, WalkStructure(reg[src], 0, "None", NoParent))
+              \/ Observe("obs_walk", <<src, TRUE>>, WalkTree(reg[src], 0, NoParent))
+ObsDigests == \E src \in Full, k \in 0..(MaxSize + 1) :
+              /\ k <= Depth(reg[src]) + 2
+              /\ Observe("obs_digests", <<src, k>>, <<"set", DigestsUpTo(reg[src], k)>>)
+(* predicates to look up: every simple value, every predicate present, every register *)
+PredicatesIn(e) == {Subject(a)[2] : a \in {x \in Assertions(e) : IsAssn(Subject(x))}}
+LookupAnswer(e, p) ==
+  [ assertions_with_predicate |-> <<"set", {Dg(a) : a \in AssertionsWithPredicate(e, p)}>>,
+    assertion_with_predicate  |-> LET r == AssertionWithPredicate(e, p) IN IF IsOk(r) THEN Ok(Dg(Val(r))) ELSE r,
+    object_for_predicate      |-> LET r == ObjectForPredicate(e, p) IN IF IsOk(r) THEN Ok(Dg(Val(r))) ELSE r,
+    objects_for_predicate     |-> <<"set", {Dg(o) : o \in ObjectsForPredicate(e, p)}>>,
+    optional_object_for_predicate |-> LET r == OptionalObjectForPredicate(e, p) IN
+                                      IF IsOk(r) /\ Val(r) # <<"nothing">> THEN Ok(Dg(Val(r))) ELSE r ]
+ObsLookup == \E src \in Full :
+               \/ \E p \in Simple \cup PredicatesIn(reg[src]) :
+                     Observe("obs_lookup", <<src, <<"val", p>>>>, LookupAnswer(reg[src], p))
+               \/ \E rp \in Full :
+                     Observe("obs_lookup", <<src, <<"reg", rp>>>>, LookupAnswer(reg[src], reg[rp]))
+ObsExtract == \E src \in Full, ty \in ExtractTypes :
+               Observe("obs_extract", <<src, ty>>, ExtractSubject(reg[src], ty))
+ObsCompare == \E r1 \in Full, r2 \in Full :
+               Observe("obs_compare", <<r1, r2>>,
+                       [ equivalent |-> Equivalent(reg[r1], reg[r2]),
+                         identical  |-> Identical(reg[r1], reg[r2]),
+                         img1 |-> StructImage(reg[r1]), img2 |-> StructImage(reg[r2]) ])
+ObserveFam == ObsStructure \/ ObsWalk \/ ObsDigests \/ ObsLookup \/ ObsExtract
+
+Fam(f, A) == Len(hist) < Len(Phases) /\ f \in Phases[Len(hist) + 1] /\ A
 
 Bounded == \A r \in Full : Size(reg[r]) <= MaxSize
 
